@@ -310,16 +310,27 @@ def R8_binders(ctx, rid, core):
     for n, e, g in scope.sites(cfv["body"], lambda n: H.kind(n) == "MethodCall" and n["name"] in ("insert", "extend") and "HashSet" in n.get("recv_ty", ""), S.Env()):
         b_cfv.add(innermost_ast_arm(g))
     b_inl = {}
-    for n, e, g in scope.sites(inl["body"], lambda n: H.kind(n) == "MethodCall" and n["name"] in ("shift_remove", "swap_remove", "remove", "retain") and "IndexMap" in n.get("recv_ty", ""), S.Env()):
-        lab = innermost_ast_arm(g)
-        b_inl.setdefault(lab, []).append((n, g))
+    # the inliner is whichever printer of the module narrows the captured scope (the function itself, or a method of a printer struct)
+    inl_fns = [inl] + [core.hir_fn(nm_) for nm_ in sorted(printer_fns(core)) if nm_.startswith(A2S) and nm_ != A2S + "expr_to_source_with_scope"]
+    for f_ in inl_fns:
+        for n, e, g in scope.sites(f_["body"], lambda n: H.kind(n) == "MethodCall" and n["name"] in ("shift_remove", "swap_remove", "remove", "retain") and "IndexMap" in n.get("recv_ty", ""), S.Env()):
+            lab = innermost_ast_arm(g)
+            if lab is not None:
+                b_inl.setdefault(lab, []).append((n, g))
     for b in sorted(b_cfv | set(b_inl), key=str):
         ctx.inst(rid, "binder=%s" % b, b in b_cfv and b in b_inl,
                  "binds names for the capture analysis: %s; removes them from the inlining scope: %s%s" % (b in b_cfv, b in b_inl, "" if b in b_inl else " (a local that shadows a captured name is overwritten by the captured value after its own definition)"), H.loc(inl["body"]))
     # the Lambda binder removes every parameter, whatever its kind
+    seen_sites = set()
     for n, g in b_inl.get("Expr::Lambda", []):
+        if H.loc(n) in seen_sites:
+            continue   # the same site seen through several entry points (helpers are looked through)
+        seen_sites.add(H.loc(n))
         in_loop = any(x[0] == "loop" for x in g)
-        conds = [x for x in g if x[0] in ("if",) or (x[0] == "arm" and not any("ast::Expr" in v for v in H.pat_variants(x[1]["pat"])))]
+        loopvars = {bn for x in g if x[0] == "loop" for bn in H.pat_binds(x[1]["pat"])}
+        # conditions on the parameter itself (its kind, its name): anything else (is there a scope at all?) is not about the parameter
+        conds = [x for x in g if (x[0] == "if" and any(H.path_local(y) in loopvars for y in H.walk(x[1]) if H.kind(y) == "Path"))
+                 or (x[0] == "arm" and any("LambdaArg::" in v for v in H.pat_variants(x[1]["pat"])))]
         key = S.norm(n["args"][0], S.Env())
         okk = n["name"] == "shift_remove" and in_loop and not conds and S.contains_call(key, "get_name")
         ctx.inst(rid, "binder=Expr::Lambda#all-parameters", okk, "%s(%s) in a loop over the parameters with no condition on the parameter kind: %s" % (n["name"], S.show(key), okk), H.loc(n))
